@@ -37,6 +37,7 @@ PREDF = {  # code: (elem, closure on &T, closure on &V for keyed or None)
     "even": ("I", "|x| *x % 2 == 0", None),
     "pos": ("I", "|x| *x > 0", None),
     "small": ("I", "|x| *x < 5", None),
+    "any": ("I", "|_x| true", None),
     "keven": ("P", "|(k, _v)| *k % 2 == 0", None),
     "vodd": ("P", "|(_k, v)| *v % 2 != 0", "|v| *v % 2 != 0"),
 }
@@ -494,10 +495,13 @@ def rand_program(rng):
 
 
 # ------------------------------------------------------------------ tick-level programs (C30)
-TARITY = {"b0": 0, "b1": 0, "cyc": 0, "map": 1, "filter": 1, "flatmap": 1, "filtermap": 1, "enumerate": 1, "unique": 1,
+TARITY = {"b0": 0, "b1": 0, "cyc": 0, "sing": 0, "ofirst": 0, "toopt": 1, "or": 2, "unwrapor": 2, "map": 1, "filter": 1, "flatmap": 1, "filtermap": 1, "enumerate": 1, "unique": 1,
           "sort": 1, "scan": 1, "limit": 1, "fold": 1, "reduce": 1, "count": 1, "max": 1, "min": 1, "first": 1, "last": 1,
           "tostream": 1, "kfold": 1, "chain": 2, "xsing": 2, "join": 2, "antijoin": 2, "notin": 2, "defer": 1, "across": 1}
 BATCH = "nondet!(/** the tick's batch */)"
+# kind of the value the `cyc` token denotes: `tT` (stream cycle, `tcyc`), `topt` (Optional cycle: `tcyco` with an
+# initial value = `Tick::cycle_with_initial`, `tcycp` plain `Tick::cycle`), `tsing` (Singleton cycle with initial, `tcycs`)
+CYC_KIND = ["tT"]
 
 
 def tparse(tokens, i=0):
@@ -521,7 +525,34 @@ def temit(t):
     if op in ("b0", "b1"):
         return f"in{op[1]}.clone().batch(&tick, {BATCH})", "tT", "I"
     if op == "cyc":
-        return "cyc.clone()", "tT", "I"
+        if CYC_KIND[0] is None:
+            raise Bad("cyc outside a cycle (or inside its initial value)")
+        return "cyc.clone()", CYC_KIND[0], "I"
+    if op == "sing":
+        # `tick.singleton(q!(v))`: SingletonSource { first_tick_only: false } -> source_iter([v]) -> persist::<'static>()
+        return f"tick.singleton(q!({int(arg)}i64))", "tsing", "I"
+    if op == "ofirst":
+        # `tick.optional_first_tick(q!(v))`: SingletonSource { first_tick_only: true } -> source_iter([v])
+        return f"tick.optional_first_tick(q!({int(arg)}i64))", "topt", "I"
+    if op == "toopt":
+        # Singleton -> Optional (HydroNode::Cast: no DFIR operator)
+        e, k, el = temit(kids[0])
+        if k != "tsing":
+            raise Bad("toopt")
+        return f"Optional::<i64, _, Bounded>::from({e})", "topt", el
+    if op in ("or", "unwrapor"):
+        # Optional::or / Optional::unwrap_or: HydroNode::ChainFirst -> chain_first_n(1)
+        ea, ka, la = temit(kids[0])
+        eb, kb, lb = temit(kids[1])
+        if ka != "topt" or la != lb:
+            raise Bad(op)
+        if op == "or":
+            if kb != "topt":
+                raise Bad("or")
+            return f"{ea}.or({eb})", "topt", la
+        if kb != "tsing":
+            raise Bad("unwrapor")
+        return f"{ea}.unwrap_or({eb})", "tsing", la
     if op == "map":
         e, k, el = temit(kids[0])
         ein, eout, cl, _ = MAPF[arg]
@@ -550,7 +581,7 @@ def temit(t):
               "kfold", "defer", "across"):
         e, k, el = temit(kids[0])
         if op == "defer":
-            if k not in ("tT",):
+            if k not in ("tT", "topt"):
                 raise Bad("defer")
             return f"{e}.defer_tick()", k, el
         if k != "tT":
@@ -628,16 +659,40 @@ def temit(t):
     raise Bad("tick op " + op)
 
 
+OPT_T = "Optional<i64, Tick<P<'a>>, Bounded>"
+
+
 def temit_program(tokens):
     """-> (body lines, kind)"""
     lines = []
-    if tokens[0] == "tick":
+    head = tokens[0]
+    init = nxt = None
+    if head == "tick":
+        CYC_KIND[0] = None
         out, j = tparse(tokens, 1)
-        nxt = None
-    elif tokens[0] == "tcyc":
+    elif head == "tcyc":
+        CYC_KIND[0] = "tT"
         nxt, j = tparse(tokens, 1)
         out, j = tparse(tokens, j)
         lines.append("let (cyc_complete, cyc) = tick.cycle::<Stream<i64, Tick<P<'a>>, Bounded, TotalOrder, ExactlyOnce>, _>();")
+    elif head == "tcycp":
+        # plain tick cycle over an Optional (null in the first tick)
+        CYC_KIND[0] = "topt"
+        nxt, j = tparse(tokens, 1)
+        out, j = tparse(tokens, j)
+        lines.append(f"let (cyc_complete, cyc) = tick.cycle::<{OPT_T}, _>();")
+    elif head in ("tcyco", "tcycs"):
+        # `Tick::cycle_with_initial(initial)`: the initial value is a term of its own (it cannot mention the cycle)
+        init, j = tparse(tokens, 1)
+        nxt, j = tparse(tokens, j)
+        out, j = tparse(tokens, j)
+        CYC_KIND[0] = None
+        ei, ki, eli = temit(init)
+        CYC_KIND[0] = "topt" if head == "tcyco" else "tsing"
+        if ki != CYC_KIND[0] or eli != "I":
+            raise Bad("initial value type")
+        lines.append(f"let cyc_initial = {ei};")
+        lines.append("let (cyc_complete, cyc) = tick.cycle_with_initial(cyc_initial);")
     else:
         raise Bad("not a tick program")
     if j != len(tokens):
@@ -645,7 +700,7 @@ def temit_program(tokens):
     e, k, el = temit(out)
     if nxt is not None:
         en, kn, eln = temit(nxt)
-        if kn != "tT" or eln != "I":
+        if kn != CYC_KIND[0] or eln != "I":
             raise Bad("cycle type")
         lines.append(f"cyc_complete.complete_next_tick({en});")
     if k == "tN":
@@ -710,6 +765,38 @@ tcyc b0 fold:sum chain cyc b0
 tcyc limit:3 chain b0 cyc sort chain cyc b1
 tcyc unique chain cyc b0 notin b0 cyc
 tcyc tostream fold:sum chain cyc b0 cyc
+""".strip().splitlines()
+
+# Optional / Singleton values that live across ticks: `Tick::cycle_with_initial` over an Optional (`tcyco INIT NEXT OUT`)
+# whose body sometimes sends NULL to the next tick while the initial value is still non-null, the plain Optional
+# cycle (`tcycp NEXT OUT`), the Singleton cycle with initial (`tcycs INIT NEXT OUT`), `Optional::defer_tick`,
+# `tick.singleton` / `optional_first_tick`, `or` / `unwrap_or`
+HAND_C30O = """
+tick unwrapor ofirst:5 sing:123
+tick or max b0 toopt sing:0
+tick xsing b0 ofirst:9
+tick defer max b0
+tick unwrapor defer first b0 sing:-1
+tick or defer max b0 first b1
+tcyco filter:any sing:100 first filter:pos b0 unwrapor cyc sing:-1
+tcyco filter:any sing:100 first filter:pos b0 cyc
+tcyco toopt sing:7 filter:even map:inc cyc unwrapor cyc sing:-1
+tcyco toopt sing:1 filter:small map:dbl cyc cyc
+tcyco filter:any sing:100 max b0 tostream cyc
+tcyco ofirst:5 filter:small map:inc cyc cyc
+tcyco ofirst:5 first filter:pos b0 unwrapor cyc sing:-1
+tcyco max b1 first b0 unwrapor cyc sing:-1
+tcyco filter:any sing:3 or first filter:even b0 filter:small map:dbl cyc xsing b0 cyc
+tcyco toopt count b0 filter:pos map:add2 first xsing b0 cyc unwrapor cyc sing:-7
+tcyco toopt sing:2 last filter:even chain tostream cyc b0 fold:sum chain tostream cyc b1
+tcycp first filter:pos b0 unwrapor cyc sing:-1
+tcycp or max b0 map:inc cyc cyc
+tcycp filter:even map:inc or cyc first b0 cyc
+tcycp last b0 or cyc toopt sing:-5
+tcycs sing:100 unwrapor first filter:pos b0 cyc cyc
+tcycs sing:0 map:inc cyc cyc
+tcycs count b0 fold:sum chain tostream cyc b0 cyc
+tcycs sing:1 unwrapor filter:small map:dbl cyc sing:1 xsing b0 cyc
 """.strip().splitlines()
 
 HAND_C28B = """
@@ -873,6 +960,11 @@ def build_corpus():
         seen.add(s)
         e, k, el = emit(parse(toks))
         progs.append((tags_for(toks, "c28"), k, s))
+    # appended last so that the existing programs keep their numbers
+    for line in HAND_C30O:
+        toks = line.split()
+        lines, k = temit_program(toks)
+        progs.append(("c30", k, " ".join(toks)))
     return progs
 
 
@@ -893,7 +985,7 @@ def render(progs):
         out.append(f"pub fn {name}<'a>(in0: Stream<i64, P<'a>>, in1: Stream<i64, P<'a>>) {{")
         out.append("    let p = in0.location().clone();")
         out.append("    let tick = p.tick();")
-        if term.split()[0] in ("tick", "tcyc"):
+        if term.split()[0] in ("tick", "tcyc", "tcyco", "tcycp", "tcycs"):
             lines, k = temit_program(term.split())
             assert k == kind
             out += ["    " + l for l in lines]
